@@ -171,4 +171,48 @@ PROPS['C16'] = {
     'design_ref': 'DESIGN.md section 5 C16',
 }
 
+PROPS['C02'] = {
+    'modules': FS_MODULES + ['contracts.mvcc'],
+    'lemmas': ['contracts.mvcc:lemma_frames', 'contracts.mvcc:lemma_snapshot'],
+    'level': 'proof',
+    'bounded': [
+        {'func': 'ZODB.DB:DB<multi-connection-programs>',
+         'bound': 'mapping and file storage x (3 fixed + 60 (thorough: 600) random) sequential programs of <=16 steps '
+                  'over 3 connections / 3 objects (read, write, commit, abort, close+reopen from the pool) against a '
+                  'snapshot model; NO thread schedules'},
+    ],
+    'text': 'Sequential contracts + lock ownership + call ordering: poll_invalidations proved to set the snapshot '
+            'bound to max(storage last tid, delivered tid)+1 and to drain the pending set (or recreate it for the '
+            'flush signal) inside ONE critical section of the instance lock; the bound is assigned nowhere else '
+            '(module-wide frame); load proved to be loadBefore(oid, bound); _invalidate proved to record tid and '
+            'oids under the lock; tpc_finish of the MVCC instance and of FileStorage proved to deliver invalidations '
+            'to every other registered instance from inside the storage\'s finish, before the data becomes loadable '
+            'and inside the reader pool\'s write lock; _abort proved to drop pooled reader buffers; newTransaction '
+            'proved to apply the polled invalidations (or flush the whole cache) before returning.',
+    'note': 'NOT covered: the schedule quantifier. Lock-protected regions are treated as atomic (T3); a breakage '
+            'visible only as a race that keeps every sequential contract and lock-ownership obligation true is not '
+            'detected by this family. The instance registry is unrolled with three members. FilePool is an assumed '
+            'contract (ghost stale flag).',
+    'design_ref': 'DESIGN.md section 5 C02',
+}
+PROPS['C15'] = {
+    'modules': ['contracts.fs_format', 'contracts.mvcc'],
+    'lemmas': ['contracts.mvcc:lemma_frames', 'contracts.mvcc:lemma_snapshot'],
+    'level': 'proof',
+    'bounded': [
+        {'func': 'ZODB.DB:DB.open<historical-points>',
+         'bound': 'mapping and file storage; 10 commits with a controlled clock; every point opened as at=tid, '
+                  'before=tid+1, naive-UTC datetime, aware datetime +05:30 / -08:00; connections held across later '
+                  'commits with emptied caches and re-opened from the pool; commit refused; future point refused'},
+    ],
+    'text': 'getTID proved: at (8 bytes) maps to the next stamp after at, before to itself, both to ValueError, '
+            'datetimes are converted through their UTC time tuple; the historical adapter (built by running its '
+            'real constructor) proved to load exactly loadBefore(oid, before)[:2] with POSKeyError for None, to '
+            'report no invalidations, and new_oid/pack/store to raise ReadOnlyError; the bound is assigned only in '
+            'the constructor (module-wide frame); lemma: commits made later have tids not below the bound.',
+    'note': 'DB.open\'s future check, Connection._commit\'s ReadOnlyHistoryError and the historical pool are covered '
+            'by the bounded harness only. TimeStamp is an assumed contract (A-TIMESTAMP).',
+    'design_ref': 'DESIGN.md section 5 C15',
+}
+
 NOT_YET = {}
